@@ -230,6 +230,10 @@ def run(ctx):
                         p = write_replay("C07", "once-%d" % i, dict(kind="trace-rejected+impl-monitor", scenario=scen, answer=ans, counts=counts, events=ev))
                         viol.append(Violation("C07", p, "redo %s all: a target's script ran more than once in one run (%s; model: %s)" % (" ".join(v), {k: c for k, c in counts.items() if c > 1}, ans)))
                         break
+                    # control flow of builder::run in every process of the build (RunLoop acceptor; C07d's theorems:
+                    # one decision per file id per command)
+                    if not sched.runloop_check("C07", "build-%d" % i, r.trace, viol, stats, scen):
+                        break
                     # schedule independence: the same events through the Par acceptor (guards of C07b's theorems)
                     dbn = {a: d["deps"] for a, d in g.items()}
                     dbn["all"] = sorted(n2 for n2 in g if not any(n2 in d["deps"] for d in g.values()))
